@@ -87,6 +87,15 @@ def handleA (st : St) (n : Nat) (toks : List String) : Result := Id.run do
       if iclient != "skip" && iclient != "notexist" && istatus == 404 then
         let f := fail st n "C16" s!"the bundled client did not map 404 to 'does not exist' ({iclient.take 30})"
         st := f.st; outs := outs ++ f.out
+  else if kind == "down" then
+    let ic := (get "client").getD "?"
+    st := st.bump s!"api.down.{ic.take 5}"
+    if ic != "err" then
+      let f := fail st n "C16" s!"with the witness unreachable the bundled client did not report an error ({ic.take 20}): feeders rely on telling 'does not exist' and the bytes apart from a failure"
+      st := f.st; outs := outs ++ f.out
+    else
+      st := { st with nOK := st.nOK + 1 }
+      outs := [s!"OK {n}"]
   else if kind == "cget" then
     -- a conditional GET with a validator the service handed out earlier together with the bytes `learned`
     let some id := (get "id").bind hexOfString | return { st, out := [s!"BAD {n} id"] }
